@@ -42,15 +42,15 @@ ASSUMPTIONS = [
     "fonts/text size estimators are exercised by the oracle only (not modelled)",
 ]
 OPEN = [
-    "agreeClass is sound (theorem fast_eq_slow) and tight on the generated strings (29 of 38k generated strings outside the class "
-    "still agree), fast_eq_slow_iff reduces agreement to the two string functions slowLoop / fastLoop, but no syntactic "
-    "completeness theorem (agree => in class) is proved",
-    "text size estimators (mtext_size, estimate_mtext_extents, text_size), the layout engine, MTextExplode, text_wrap, "
-    "scale_mtext_inline_commands: totality is searched by the oracle (O1b, O1c; five defects found and fixed this session), not proved",
-    "MText.plain_text / all_columns_plain_text wrappers and linked columns: oracle only",
-    "observations outside the property (not fixed): the parser flag _continue_stroke is not restored by pop_ctx (a stroke switched on inside a "
-    "group leaves continue_stroke=True on later contexts; modelled as is); scale_mtext_inline_commands splits at the text \\H also behind an "
-    "escaped backslash (scale('\\\\H2;a', 2) changes the visible text) and accepts '.5' which the parser does not",
+    "completeness of agreeClass: proved as an iff on the argument-free sub-grammar (fast_eq_slow_iff_arg_free: characters, control characters, "
+    "braces, escapes, \\P, stroke switches, \\X, \\N, trailing backslash); for commands with arguments, stacking and %-codes only soundness "
+    "(fast_eq_slow) and the per-construct counterexample theorems are proved",
+    "text size estimators (mtext_size, estimate_mtext_extents, text_size), the layout engine, MTextExplode, text_wrap: totality is searched by the "
+    "oracle (O1b, O1c, O1d), not proved; scale_mtext_inline_commands is modelled structurally (scaleSegs), the float formatting '.3g' is CPython's",
+    "MText.all_columns_plain_text with linked column entities (DXF R2000-R2013 columns): the model covers entities without linked columns",
+    "observations outside the property (not fixed): _continue_stroke is not restored by pop_ctx; scale_mtext_inline_commands rescales the number behind "
+    "the TEXT \\H also after an escaped backslash (scale_rescales_visible_text) and deletes an invalid number such as '.' (scale_part_law); "
+    "split_mtext_string separates a caret pair '^^' at a chunk boundary (split_separates_caret_pair)",
 ]
 
 ALPHA = ["\\", "{", "}", ";", "^", "%", ",", "0", "a", " ", "S", "H"]
@@ -212,6 +212,24 @@ def extract_bodies(ctx):
     return out
 
 
+def extract_wrapper_bodies(ctx):
+    """bodies of MText.plain_text and MText.all_columns_plain_text (methods; AST re-printed, docstrings removed)"""
+    import ast
+
+    tree = ast.parse(ctx.src("src/ezdxf/entities/mtext.py"))
+    cls = [n for n in tree.body if isinstance(n, ast.ClassDef) and n.name == "MText"][0]
+    out = []
+    for name in ("plain_text", "all_columns_plain_text"):
+        fn = [n for n in cls.body if isinstance(n, ast.FunctionDef) and n.name == name]
+        if len(fn) != 1:
+            raise ValueError(f"MText.{name} not found")
+        body = fn[0].body
+        if body and isinstance(body[0], ast.Expr) and isinstance(body[0].value, ast.Constant) and isinstance(body[0].value.value, str):
+            body = body[1:]
+        out.append(("MText." + name, "(" + ast.unparse(fn[0].args) + ") " + " ;; ".join(ast.unparse(st).replace("\n", " ;; ") for st in body)))
+    return out
+
+
 def regenerate(ctx):
     src = ctx.src("src/ezdxf/tools/text.py")
     ctx.src("src/ezdxf/lldxf/const.py")
@@ -254,6 +272,9 @@ def assigns : List (Char × List String) := {lean_list("(Char.ofNat " + str(ord(
 
 /-- bodies of the small helpers that the model transcribes line by line (AST re-printed, docstrings removed) -/
 def bodies : List (String × String) := {lean_list("(" + lean_str(n) + ", " + lean_str(b) + ")" for n, b in extract_bodies(ctx))}
+
+/-- bodies of the MText wrappers `plain_text`, `all_columns_plain_text` (AST re-printed, docstrings removed) -/
+def wrapperBodies : List (String × String) := {lean_list("(" + lean_str(n) + ", " + lean_str(b) + ")" for n, b in extract_wrapper_bodies(ctx))}
 
 /-- character sets used with `in` (function, sets in source order), from the AST -/
 def inSets : List (String × List String) := {lean_list("(" + lean_str(n) + ", " + lean_list(lean_str(x) for x in ss) + ")" for n, ss in sets)}
@@ -524,6 +545,10 @@ def correspond(ctx):
     ctx.correspond("X1 text tools", "C20", cases, build=["EzdxfVerif.Model.Text", "EzdxfVerif.Gen.TextTables", "Drivers.Proto"])
     editor_correspond(ctx)
     para_correspond(ctx)
+    argfree_correspond(ctx)
+    split_caret_correspond(ctx)
+    wrapper_correspond(ctx)
+    scale_correspond(ctx)
     context_correspond(ctx)
 
 
@@ -1123,6 +1148,122 @@ def context_correspond(ctx):
             first = next((i for i, (a, b) in enumerate(zip(impl, model)) if a != b), min(len(impl), len(model))) if isinstance(impl, list) and isinstance(model, list) else 0
             ctx.disagree("X7 token contexts", f"ctx|{cps(s)}", repr(impl[first:first + 1] if isinstance(impl, list) else impl)[:300],
                          repr(model[first:first + 1] if isinstance(model, list) else model)[:300])
+    ctx.cov["disagreements_checked"] += len(strs)
+
+
+def argfree_correspond(ctx):
+    """X8 (final round): theorem fast_eq_slow_iff_arg_free instantiated on the real code: for every generated content of the
+    argument-free sub-grammar (model recogniser `argFree`) the real decoders agree exactly when the model predicate
+    `argFreeAgree` holds; contents: all generated strings + every string up to length 5/6 over the sub-grammar's own alphabet"""
+    from ezdxf.tools import text as T
+
+    atoms = ["a", " ", "{", "}", "\\\\", "\\{", "\\}", "\\P", "\\L", "\\l", "\\O", "\\o", "\\K", "\\k", "\\X", "\\N", "^I", "^J", "^M", "\n", "\\", "é"]
+    strs = [s for _, s in strings(ctx) if len(s) <= 300]
+    for n in range(0, ctx.n(3, 4) + 1):
+        for tpl in itertools.product(atoms, repeat=n):
+            strs.append("".join(tpl))
+    strs = list(dict.fromkeys(strs))
+    outs = ctx.driver("C20", [f"argfree|{cps(s)}" for s in strs], build=DRIVER_DEPS)
+    for s, out in zip(strs, outs):
+        if out == "out":
+            ctx.hist("X8 argument-free fragment", "outside")
+            continue
+        ctx.count("X8 argument-free fragment", s, "\\" in s or "^" in s)
+        impl = "in 1" if T.plain_mtext(s) == T.fast_plain_mtext(s) else "in 0"
+        ctx.hist("X8 argument-free fragment", impl)
+        if impl != out:
+            ctx.disagree("X8 argument-free fragment", f"argfree|{cps(s)}", impl, out)
+    ctx.cov["disagreements_checked"] += len(strs)
+
+
+def split_caret_correspond(ctx):
+    """X9 (final round): theorem split_no_caret_at_chunk_end on the real code: the model predicate `noDoubleCaret` == `"^^" not in s`,
+    and for every such content no chunk of the real split_mtext_string except the last ends in a caret (sizes 2, 3, 7, 250);
+    split_separates_caret_pair: the counterexample on the real code"""
+    from ezdxf.tools import text as T
+
+    rng = ctx.rng("splitcaret")
+    strs = [s for k, s in strings(ctx) if k != "cmd" and len(s) <= 700]
+    for _ in range(ctx.n(1500, 15000)):
+        n = rng.choice([3, 7, 8, 249, 250, 251, 499, 500, 501, 752])
+        strs.append("".join(rng.choice("^ab") if rng.random() < 0.9 else "^^" for _ in range(n)))
+    strs = list(dict.fromkeys(strs))
+    outs = ctx.driver("C20", [f"nodc|{cps(s)}" for s in strs], build=DRIVER_DEPS)
+    for s, out in zip(strs, outs):
+        ctx.count("X9 split caret pairs", s, "^" in s)
+        impl = "1" if "^^" not in s else "0"
+        if impl != out:
+            ctx.disagree("X9 split caret pairs", f"nodc|{cps(s)}", impl, out)
+        if out == "1":
+            for size in (2, 3, 7, 250):
+                chunks = T.split_mtext_string(s, size)
+                if any(c.endswith("^") for c in chunks[:-1]):
+                    ctx.disagree("X9 split caret pairs", f"split|{size}|{cps(s)}", "a chunk that is not the last ends in '^'", "none does (theorem)")
+    if T.split_mtext_string("a^^b", 3) != ["a^", "^b"]:
+        ctx.disagree("X9 split caret pairs", "split|3|a^^b", repr(T.split_mtext_string("a^^b", 3)), "['a^', '^b']")
+    ctx.cov["disagreements_checked"] += len(strs)
+
+
+def wrapper_correspond(ctx):
+    """X10 (final round): MText.plain_text(split, fast) and MText.all_columns_plain_text(split) of real entities (plain MTEXT and
+    MTEXT with embedded R2018 columns, no linked column entities) == model wrappers"""
+    import ezdxf
+
+    doc = ezdxf.new("R2018")
+    msp = doc.modelspace()
+    plain = msp.add_mtext("")
+    cols = msp.add_mtext_dynamic_auto_height_columns("x", width=20, gutter_width=1, height=50, count=2)
+    cases = []
+    n = 0
+    for kind, s in strings(ctx):
+        n += 1
+        if kind == "digits" or len(s) > 300 or (kind in ("exh", "cmd") and n % 4):
+            continue
+        for fast in (True, False):
+            plain.text = s
+            cols.text = s
+            try:
+                a = cps(plain.plain_text(split=False, fast=fast))
+            except Exception as e:  # noqa
+                a = _exc(e)
+            try:
+                b = ";".join(cps(x) for x in plain.plain_text(split=True, fast=fast))
+            except Exception as e:  # noqa
+                b = _exc(e)
+            c = cps(plain.all_columns_plain_text(split=False))
+            d = ";".join(cps(x) for x in plain.all_columns_plain_text(split=True))
+            e2 = ";".join(cps(x) for x in cols.all_columns_plain_text(split=True))
+            cases.append((f"wrap|{int(fast)}|{cps(s)}", f"{a}|{b}|{c}|{d}|{e2}", "\\" in s or "^" in s))
+    ctx.correspond("X10 MText wrappers", "C20", cases, build=DRIVER_DEPS)
+
+
+def scale_correspond(ctx):
+    """X11 (final round): scale_mtext_inline_commands(s, factor) on the real code == the model segments `scaleSegs s` with every
+    scaled number n rendered as f"{float(n) * abs(factor):.3g}" (the float formatting is CPython's, the structure is the model's)"""
+    from ezdxf.tools import text as T
+
+    rng = ctx.rng("scale")
+    atoms = ["\\H2.5;", "\\H.5;", "\\H.;", "\\H1..2;", "\\H3x;", "\\H0.25x;", "\\\\H2;", "\\H", "\\H12", "\\Hx", "\\H1e3;", "\\H-2;", "\\H;", "\\H1.;",
+             "a", " ", "{", "}", "\\", "\\P", "\\C1;", "H", ".", "9", "x", "\\h1;", "\\H0;", "\\H00012.50;", "\\H1.5.x;"]
+    strs = [s for _, s in strings(ctx) if "\\H" in s and len(s) <= 300]
+    for n in range(0, 3):
+        for tpl in itertools.product(atoms, repeat=n):
+            strs.append("".join(tpl))
+    for _ in range(ctx.n(2000, 20000)):
+        strs.append("".join(rng.choice(atoms) for _ in range(rng.randint(3, 12))))
+    strs = list(dict.fromkeys(strs))
+    outs = ctx.driver("C20", [f"scale|{cps(s)}" for s in strs], build=DRIVER_DEPS)
+    un = lambda f: "".join(chr(int(x)) for x in f.split()) if f else ""
+    for s, out in zip(strs, outs):
+        ctx.count("X11 scale inline commands", s, "\\H" in s)
+        for factor in (2.0, 0.5, -3.0, 1.0):
+            model = "".join((un(g[2:]) if g.startswith("T:") else f"{float(un(g[2:])) * abs(factor):.3g}") for g in (out.split(";") if out else []))
+            try:
+                impl = T.scale_mtext_inline_commands(s, factor)
+            except Exception as e:  # noqa
+                impl = _exc(e)
+            if impl != model:
+                ctx.disagree("X11 scale inline commands", f"scale|{cps(s)} factor={factor}", impl, model)
     ctx.cov["disagreements_checked"] += len(strs)
 
 
